@@ -1,15 +1,364 @@
 /-
-  HotXL.Model.Fn.Stat — builtin functions of this family (filled in as the family is modelled).
-  `table` maps a registered function name to its model; a registered name with no entry
-  here is reported by the evaluator as `Value.other "unmodelled-builtin"`.
+  HotXL.Model.Fn.Stat — model of hotxlfp/formulas/statistical.py.
+
+  The CPython `statistics` functions are modelled by what they compute on ints and floats
+  (Python 3.12): exact rational arithmetic on the exact values of the items, then `_convert`:
+  an `int` when no float was among the items and the result is integral, a (correctly
+  rounded) float otherwise — here `Num.flt q` with the exact rational `q`.
+  Irrational results are returned symbolically: `sqrtTag q` (the non-negative real whose square
+  is `q`; STDEV family) and `rootTag n q` (the positive real whose `n`-th power is `q`; GEOMEAN).
+  Logicals among the items are modelled by their integer value (Python would hand a `bool`
+  through MIN/MAX/MEDIAN/MODE unchanged).
 -/
 import HotXL.Model.Fn.Common
+import HotXL.Model.Fn.Agg
 
 namespace HotXL.Fn.Stat
-open HotXL
+open HotXL HotXL.Ops HotXL.Fn HotXL.Fn.Agg
 
-open HotXL.Fn
+/-! ### `statistics` on lists of numbers -/
 
-def table : List (String × Builtin) := []
+/-- `statistics._convert(q, T)` for T ∈ {int, float} -/
+def convert (ints : Bool) (q : Rat) : Num :=
+  if ints && q.den = 1 then .int q.num else .flt q
+
+/-- `statistics.mean`: StatisticsError on empty data -/
+def mean (xs : List Num) : Except Err Num :=
+  if xs.isEmpty then .error .error
+  else .ok (convert (allInt xs) (ratSum (rats xs) / (xs.length : Rat)))
+
+/-- stable insertion by value (an item goes before the first item that is not smaller) -/
+def insertNum (x : Num) : List Num → List Num
+  | [] => [x]
+  | y :: ys => if Num.toRat x ≤ Num.toRat y then x :: y :: ys else y :: insertNum x ys
+
+/-- Python `sorted(xs)` (stable) -/
+def sortNums : List Num → List Num
+  | [] => []
+  | x :: xs => insertNum x (sortNums xs)
+
+/-- `statistics.median`: the middle item of the sorted data, or `(a + b) / 2` of the two middle
+    items (true division: a float) -/
+def median (xs : List Num) : Except Err Num :=
+  let s := sortNums xs
+  let n := s.length
+  if n = 0 then .error .error
+  else if n % 2 = 1 then .ok (s.getD (n / 2) (.int 0))
+  else .ok (.flt ((Num.toRat (s.getD (n / 2 - 1) (.int 0)) + Num.toRat (s.getD (n / 2) (.int 0))) / 2))
+
+/-- number of items equal (as numbers) to `x` -/
+def countEq (x : Num) (xs : List Num) : Nat := xs.countP (fun y => Num.toRat y = Num.toRat x)
+
+/-- `statistics.mode` (Python ≥ 3.8): the first item, in the original order, whose value is most
+    frequent (`Counter(data).most_common(1)`: first maximal count in insertion order) -/
+def mode (xs : List Num) : Except Err Num :=
+  match xs with
+  | [] => .error .error
+  | x :: rest => .ok (rest.foldl (fun best y => if countEq best xs < countEq y xs then y else best) x)
+
+/-- `_ss`: the exact sum of squared deviations, computed as (n·Σx² − (Σx)²)/n -/
+def ssd (qs : List Rat) : Rat :=
+  let n : Rat := (qs.length : Rat)
+  (n * ratSum (qs.map (fun q => q * q)) - ratSum qs * ratSum qs) / n
+
+/-- sample variance as an exact rational; StatisticsError below two items -/
+def varianceQ (xs : List Num) : Except Err Rat :=
+  if xs.length < 2 then .error .error else .ok (ssd (rats xs) / ((xs.length : Rat) - 1))
+
+/-- population variance as an exact rational; StatisticsError on empty data -/
+def pvarianceQ (xs : List Num) : Except Err Rat :=
+  if xs.length < 1 then .error .error else .ok (ssd (rats xs) / (xs.length : Rat))
+
+def variance (xs : List Num) : Except Err Num := (varianceQ xs).map (convert (allInt xs))
+def pvariance (xs : List Num) : Except Err Num := (pvarianceQ xs).map (convert (allInt xs))
+
+/-- the non-negative real number whose square is `q` (`_float_sqrt_of_frac`, correctly rounded
+    in Python) -/
+def sqrtTag (q : Rat) : Value := .other s!"sqrt:{q.num}/{q.den}"
+
+/-- the positive real number `g` with `g ^ n = q` -/
+def rootTag (n : Nat) (q : Rat) : Value := .other s!"root:{n}:{q.num}/{q.den}"
+
+/-- the scan of `harmonic_mean` over two or more items: `_fail_neg` raises on the first
+    negative item, `1 / x` raises ZeroDivisionError (→ result 0) on the first zero — whichever
+    comes first in the order of the items decides; `none` = all items positive -/
+def harmScan : List Num → Option (Except Err Num)
+  | [] => none
+  | x :: xs =>
+    if Num.toRat x < 0 then some (.error .error)
+    else if Num.toRat x = 0 then some (.ok (.int 0))
+    else harmScan xs
+
+/-- `statistics.harmonic_mean` -/
+def harmean (xs : List Num) : Except Err Num :=
+  match xs with
+  | [] => .error .error
+  | [x] => if Num.toRat x < 0 then .error .error else .ok x
+  | _ =>
+    match harmScan xs with
+    | some r => r
+    | none => .ok (.flt ((xs.length : Rat) / ratSum ((rats xs).map (fun q => 1 / q))))
+
+/-- `statistics.geometric_mean` = exp(fmean(map(log, data))): StatisticsError on empty data and
+    on any item ≤ 0 (math domain error); otherwise the `n`-th root of the product -/
+def geomean (xs : List Num) : Except Err Value :=
+  if xs.isEmpty then .error .error
+  else if xs.any (fun x => Num.toRat x ≤ 0) then .error .error
+  else .ok (rootTag xs.length (ratProd (rats xs)))
+
+/-- Python `max(xs)`: ValueError on empty; the FIRST maximal item -/
+def maxNums : List Num → Except Err Num
+  | [] => .error .error
+  | x :: xs => .ok (xs.foldl (fun b y => if Num.toRat b < Num.toRat y then y else b) x)
+
+/-- Python `min(xs)`: ValueError on empty; the FIRST minimal item -/
+def minNums : List Num → Except Err Num
+  | [] => .error .error
+  | x :: xs => .ok (xs.foldl (fun b y => if Num.toRat y < Num.toRat b then y else b) x)
+
+/-- lift a statistic of the numeric items to a builtin over `inumbers(args, …)` -/
+def overNumbers (tryParse textIsZero : Bool) (f : List Num → Except Err Value) : Builtin := fun args =>
+  match inumbers tryParse textIsZero args with
+  | .error e => .error e
+  | .ok xs => f xs
+
+def numV (r : Except Err Num) : Except Err Value := r.map .num
+
+/-! ### the registered functions -/
+
+def AVERAGE : Builtin := overNumbers true false (fun xs => numV (mean xs))
+def AVERAGEA : Builtin := overNumbers true true (fun xs => numV (mean xs))
+
+/-- Σ|x − μ| / n as computed by AVEDEV -/
+def avedevQ (ns : List Num) (avg : Num) : Rat :=
+  ratSum (ns.map (fun x => ratAbs (Num.toRat x - Num.toRat avg))) / (ns.length : Rat)
+
+/-- the items as Python numbers for `arg - average`: anything else (text, even numeric text,
+    blank, dates) is a TypeError -/
+def allNumbers : List Value → Option (List Num)
+  | [] => some []
+  | v :: rest =>
+    match asNumber? v, allNumbers rest with
+    | some n, some ns => some (n :: ns)
+    | _, _ => none
+
+/-- AVEDEV(*args): `args = flatten(args)`; `AVERAGE(*args)` (which flattens again: a no-op, so
+    the model hands it `args`); then `sum(abs(arg - average) …) / len(args)` over ALL items -/
+def AVEDEV : Builtin := fun args =>
+  match inumbers true false args with
+  | .error e => .error e
+  | .ok xs =>
+    match mean xs with
+    | .error e => .error e
+    | .ok avg =>
+      match allNumbers (flattenList args) with
+      | none => .error .error
+      | some ns => .ok (.num (.flt (avedevQ ns avg)))
+
+/-- COUNT(*args) = len(flatten(args)): counts EVERY item, numeric or not -/
+def COUNT : Builtin := fun args => .ok (.num (.int (flattenList args).length))
+
+def isBlankLike : Value → Bool
+  | .blank => true
+  | .str s => s.isEmpty
+  | _ => false
+
+def COUNTA : Builtin := fun args =>
+  .ok (.num (.int ((flattenList args).countP (fun a => !isBlankLike a))))
+def COUNTBLANK : Builtin := fun args =>
+  .ok (.num (.int ((flattenList args).countP isBlankLike)))
+
+/-- COUNTIF(args, criteria) -/
+def COUNTIF : Builtin
+  | [args, criteria] =>
+    match parseCriteria criteria with
+    | .error e => .error e
+    | .ok c => .ok (.num (.int (selectBy c (flattenValue args)).length))
+  | _ => .error .error
+
+/-- `average_range[i]` for the items `args[i]` that satisfy the predicate; IndexError when the
+    average range is too short for a selected item -/
+def selectAligned (c : Crit) : List Value → List Value → Except Err (List Value)
+  | [], _ => .ok []
+  | a :: rest, vs =>
+    match selectAligned c rest (vs.drop 1) with
+    | .error e => .error e
+    | .ok tail =>
+      if c.test a then
+        match vs.head? with
+        | none => .error .error
+        | some v => .ok (v :: tail)
+      else .ok tail
+
+/-- `parse_number` of every selected item, added up with `result += …` (an error VALUE among
+    the selected items is a TypeError) -/
+def parsedNums : List Value → Except Err (List Num)
+  | [] => .ok []
+  | v :: rest =>
+    match parseNumber v with
+    | .error _ => .error .error
+    | .ok n => (parsedNums rest).map (n :: ·)
+
+/-- `sum / count` (true division): ZeroDivisionError / AttributeError(`error.DIV0`) when
+    nothing was selected — `#ERROR!` either way -/
+def averageOf (ns : List Num) : Except Err Value :=
+  if ns.isEmpty then .error .error
+  else .ok (.num (.flt (Num.toRat (pySum ns) / (ns.length : Rat))))
+
+def averageif (args criteria avgRange : Value) : Except Err Value :=
+  let ar := if pyTruthy avgRange then avgRange else args
+  let items := flattenValue args
+  let avs := flattenValue ar
+  if avs.isEmpty then .ok (.err .value) else
+  match parseCriteria criteria with
+  | .error e => .error e
+  | .ok c =>
+    match selectAligned c items avs with
+    | .error e => .error e
+    | .ok sel =>
+      match parsedNums sel with
+      | .error e => .error e
+      | .ok ns => averageOf ns
+
+/-- AVERAGEIF(args, criteria, average_range=None) -/
+def AVERAGEIF : Builtin
+  | [args, criteria] => averageif args criteria .blank
+  | [args, criteria, ar] => averageif args criteria ar
+  | _ => .error .error
+
+def MAX : Builtin := overNumbers false false (fun xs => numV (maxNums xs))
+def MAXA : Builtin := overNumbers true true (fun xs => numV (maxNums xs))
+def MIN : Builtin := overNumbers false false (fun xs => numV (minNums xs))
+def MINA : Builtin := overNumbers true true (fun xs => numV (minNums xs))
+def MEDIAN : Builtin := overNumbers true false (fun xs => numV (median xs))
+def MODE : Builtin := overNumbers true false (fun xs => numV (mode xs))
+def VAR : Builtin := overNumbers false false (fun xs => numV (variance xs))
+def VAR_P : Builtin := overNumbers false false (fun xs => numV (pvariance xs))
+def VARA : Builtin := overNumbers true true (fun xs => numV (variance xs))
+def STDEV : Builtin := overNumbers false false (fun xs => (varianceQ xs).map sqrtTag)
+def STDEV_P : Builtin := overNumbers false false (fun xs => (pvarianceQ xs).map sqrtTag)
+def STDEVA : Builtin := overNumbers true true (fun xs => (varianceQ xs).map sqrtTag)
+def STDEVPA : Builtin := overNumbers true true (fun xs => (pvarianceQ xs).map sqrtTag)
+def HARMEAN : Builtin := overNumbers false false (fun xs => numV (harmean xs))
+def GEOMEAN : Builtin := overNumbers false false geomean
+
+/-- AVERAGEIFS(average_range, *criteria): the value range is NOT flattened -/
+def AVERAGEIFS : Builtin
+  | [] => .error .error
+  | avgRange :: criteria =>
+    if criteria.length % 2 ≠ 0 then .ok (.err .error) else
+    match parsePairs criteria with
+    | .error e => .error e
+    | .ok preds =>
+      match seqOf avgRange with
+      | none => .error .error
+      | some items =>
+        match selectRows preds items 0 with
+        | .error e => .error e
+        | .ok sel =>
+          match numsOf sel with
+          | .error e => .error e
+          | .ok ns => averageOf ns
+
+mutual
+/-- Python `a > b` on raw values: numbers (logicals included), texts, dates among themselves,
+    lists lexicographically; anything else is a TypeError -/
+def pyGtValue : Value → Value → Except Err Bool
+  | .arr a, .arr b => pyGtList a b
+  | .str s, .str t => .ok (strLt t s)
+  | .date a, .date b => .ok (b < a)
+  | a, b =>
+    match pyNumeric? a, pyNumeric? b with
+    | some x, some y => .ok (y < x)
+    | _, _ => .error .error
+def pyGtList : List Value → List Value → Except Err Bool
+  | [], _ => .ok false
+  | _ :: _, [] => .ok true
+  | x :: xs, y :: ys => if pyEqValue x y then pyGtList xs ys else pyGtValue x y
+end
+
+/-- the running maximum of MAXIFS: `if b is None or a > b: b = a`; `b` starts as `None` (`.blank`)
+    — and is `None` again after a selected blank item -/
+def maxLoop : Value → List Value → Except Err Value
+  | b, [] => .ok b
+  | b, a :: rest =>
+    match b with
+    | .blank => maxLoop a rest
+    | _ =>
+      match pyGtValue a b with
+      | .error e => .error e
+      | .ok g => maxLoop (if g then a else b) rest
+
+/-- MAXIFS(sum_args, *criteria) -/
+def MAXIFS : Builtin
+  | [] => .error .error
+  | maxRange :: criteria =>
+    if criteria.length % 2 ≠ 0 then .ok (.err .error) else
+    match parsePairs criteria with
+    | .error e => .error e
+    | .ok preds =>
+      match seqOf maxRange with
+      | none => .error .error
+      | some items =>
+        match selectRows preds items 0 with
+        | .error e => .error e
+        | .ok sel =>
+          match maxLoop .blank sel with
+          | .error e => .error e
+          | .ok .blank => .ok (.num (.int 0))
+          | .ok b => .ok b
+
+/-- n·Σxy − Σx·Σy and n·Σx² − (Σx)² of SLOPE -/
+def slopeNum (xs ys : List Rat) : Rat :=
+  (xs.length : Rat) * ratSum (List.zipWith (· * ·) xs ys) - ratSum xs * ratSum ys
+def slopeDen (xs : List Rat) : Rat :=
+  (xs.length : Rat) * ratSum (xs.map (fun x => x * x)) - ratSum xs * ratSum xs
+
+/-- SLOPE(*yx): the first half of the positional arguments are the ys, the second half the xs;
+    the arguments are NOT flattened (`sum` of a list/text/blank/error value is a TypeError) -/
+def SLOPE : Builtin := fun yx =>
+  if yx.length % 2 ≠ 0 then .ok (.err .div0) else
+  let m := yx.length / 2
+  if m = 0 then .ok (.err .div0) else
+  match allNumbers (yx.take m), allNumbers (yx.drop m) with
+  | some ys, some xs =>
+    let den := slopeDen (rats xs)
+    if den = 0 then .ok (.err .div0)
+    else .ok (.num (.flt (slopeNum (rats xs) (rats ys) / den)))
+  | _, _ => .error .error
+
+/-- LARGE(arr, n): the `n`-th largest of the flattened numeric items (text counts as 0);
+    `n` outside 1..(number of items) is `#NUM!`; a non-integral-typed `n` (a float) is a
+    TypeError when used as a list index -/
+def LARGE : Builtin
+  | [arr, n] =>
+    match parseNumber n with
+    | .error e => .ok (.err e)
+    | .ok k =>
+      match inumbers true true [arr] with
+      | .error e => .error e
+      | .ok xs =>
+        let s := sortNums xs
+        if Num.toRat k < 1 || (s.length : Rat) < Num.toRat k then .ok (.err .num) else
+        match k with
+        | .flt _ => .error .error              -- list indices must be integers
+        | .int i =>
+          match s[s.length - i.toNat]? with
+          | some v => .ok (.num v)
+          | none => .error .error
+  | _ => .error .error
+
+def table : List (String × Builtin) :=
+  [("AVERAGE", AVERAGE), ("AVEDEV", AVEDEV), ("AVERAGEA", AVERAGEA),
+   ("AVERAGEIF", guardCriteria (fun i => i = 1) AVERAGEIF),
+   ("COUNT", COUNT), ("COUNTA", COUNTA), ("COUNTBLANK", COUNTBLANK),
+   ("COUNTIF", guardCriteria (fun i => i = 1) COUNTIF),
+   ("MAX", MAX), ("MAXA", MAXA), ("MEDIAN", MEDIAN), ("MIN", MIN), ("MINA", MINA),
+   ("MODE", MODE), ("MODE.SNGL", MODE), ("VAR", VAR), ("VAR.S", VAR), ("VAR.P", VAR_P), ("VARP", VAR_P),
+   ("VARA", VARA), ("STDEV", STDEV), ("STDEV.S", STDEV), ("STDEV.P", STDEV_P), ("STDEVP", STDEV_P),
+   ("STDEVA", STDEVA), ("STDEVPA", STDEVPA), ("HARMEAN", HARMEAN), ("GEOMEAN", GEOMEAN),
+   ("AVERAGEIFS", guardCriteria (fun i => i ≥ 2 && i % 2 = 0) AVERAGEIFS),
+   ("MAXIFS", guardCriteria (fun i => i ≥ 2 && i % 2 = 0) MAXIFS),
+   ("SLOPE", SLOPE), ("LARGE", LARGE)]
 
 end HotXL.Fn.Stat
